@@ -19,7 +19,7 @@ import (
 // reader packages whose operand is a sum or product computed in a narrower unsigned type from a decoded length is a
 // violation; the sound form widens the operands first.
 func c18NarrowSum(c *core.Ctx, r *core.Report) {
-	scope := []string{"pkg/segment/reader", "pkg/segment/pqmr", "pkg/segment/sortindex", "pkg/segment/metadata", "pkg/segment/writer/metrics/wal", "pkg/utils"}
+	scope := []string{"pkg/segment/reader", "pkg/segment/pqmr", "pkg/segment/sortindex", "pkg/segment/metadata", "pkg/segment/writer", "pkg/segment/search", "pkg/segment/query", "pkg/segment/results", "pkg/utils"}
 	width := func(t types.Type) (int, bool) {
 		b, ok := t.Underlying().(*types.Basic)
 		if !ok || b.Info()&types.IsInteger == 0 {
@@ -75,7 +75,7 @@ func c18NarrowSum(c *core.Ctx, r *core.Report) {
 	var hits []hit
 	nConv := 0
 	for _, fn := range c.RepoFunctions() {
-		in := false
+		in := c.Tier == "thorough" // the thorough tier looks at every package
 		for _, p := range scope {
 			if strings.HasPrefix(core.FnPkgPath(fn), core.ModPath+"/"+p) {
 				in = true
@@ -167,20 +167,50 @@ func c18Drain(c *core.Ctx, r *core.Report) {
 					continue
 				}
 				target := g.Call.StaticCallee()
+				type chanIn struct{ v ssa.Value }
+				var ins []chanIn
+				if mc, ok := g.Call.Value.(*ssa.MakeClosure); ok {
+					// a closure worker: the channel is a captured variable
+					target, _ = mc.Fn.(*ssa.Function)
+					if target != nil {
+						for bi, bnd := range mc.Bindings {
+							if bi >= len(target.FreeVars) {
+								continue
+							}
+							if sent[bnd] {
+								ins = append(ins, chanIn{target.FreeVars[bi]})
+							}
+							// captured by reference: the binding is the address of a local that holds the channel
+							if al, ok := bnd.(*ssa.Alloc); ok && al.Referrers() != nil {
+								for _, u := range *al.Referrers() {
+									if st, ok := u.(*ssa.Store); ok && st.Addr == ssa.Value(al) && sent[st.Val] {
+										ins = append(ins, chanIn{target.FreeVars[bi]})
+									}
+								}
+							}
+						}
+					}
+				}
 				if target == nil || target.Blocks == nil {
 					continue
 				}
 				for ai, a := range g.Call.Args {
-					if !sent[a] || ai >= len(target.Params) {
-						continue
+					if sent[a] && ai < len(target.Params) {
+						ins = append(ins, chanIn{target.Params[ai]})
 					}
-					param := ssa.Value(target.Params[ai])
+				}
+				for _, ci := range ins {
+					param := ci.v
 					// receive loops on the parameter
 					for _, lp := range core.Loops(target) {
 						var recv *ssa.UnOp
 						for _, hin := range lp.Header.Instrs {
-							if u, ok := hin.(*ssa.UnOp); ok && u.Op == token.ARROW && u.X == param {
-								recv = u
+							if u, ok := hin.(*ssa.UnOp); ok && u.Op == token.ARROW {
+								if u.X == param {
+									recv = u
+								} else if ld, ok := u.X.(*ssa.UnOp); ok && ld.Op == token.MUL && ld.X == param {
+									recv = u
+								}
 							}
 						}
 						if recv == nil {
